@@ -27,6 +27,7 @@ void RegisterCaseEnd(std::function<void()> fn);
 
 bool ObsOn(const std::string& prefix);         // is this event class observed ("obs" directive)
 void Out(const std::string& line);              // one observation line
+void Heartbeat();                                // see main.cpp: an op waiting legitimately without output
 std::string ScratchDir();                       // harness-owned scratch directory
 long CaseId();
 std::string HexEnc(const std::string& s);
